@@ -36,6 +36,11 @@ pub trait Fam: Serialize + for<'de> Deserialize<'de> + PartialEq + Debug + Clone
     fn payload2(_s: &str, _strict: bool) -> Vec<Self> {
         Vec::new()
     }
+    /// Hand-written documents that present the same value with the documented `xsi:nil="true"`
+    /// notation for absent optional elements (the serializer never writes them).
+    fn nil_docs(&self) -> Vec<String> {
+        Vec::new()
+    }
 }
 
 /// no leading / trailing XML white space (the documented exclusion for element and text strings)
@@ -46,7 +51,7 @@ pub fn trimmed(s: &str) -> bool {
 
 /// Strings for element / text positions: no leading or trailing XML white space (documented exclusion).
 pub fn text_strings(level: usize) -> Vec<String> {
-    let mut v: Vec<&str> = vec!["a", "<", "&amp;", "a b", "]]>", "\"'", "é", "a; b<c;&", "a  b   c"];
+    let mut v: Vec<&str> = vec!["a", "<", "&amp;", "a b", "]]>", "\"'", "é", "a; b<c;&", "a  b   c", "\x0Cx\x0C"];
     if level >= 1 {
         v.extend(["x<y>&z", "-->", "a\tb\nc", "&#32;", "<![CDATA[", "?>", "1"]);
     }
@@ -252,6 +257,31 @@ impl Fam for TextPlain {
     }
 }
 
+/// `$text` next to element fields (mixed content when the text is not empty)
+#[derive(Serialize, Deserialize, PartialEq, Debug, Clone)]
+pub struct TextAndElems {
+    #[serde(rename = "$text", default)]
+    pub t: String,
+    pub b: String,
+    #[serde(default)]
+    pub c: Vec<u8>,
+}
+impl Fam for TextAndElems {
+    const NAME: &'static str = "TextAndElems";
+    const ELEMENT_ONLY: bool = true; // for the instances without text; the rewrite checks the document
+    fn values(_level: usize) -> Vec<Self> {
+        let mut v = Vec::new();
+        for t in ["", "x", "a b", "<&>"] {
+            for b in ["1", ""] {
+                for c in [vec![], vec![7], vec![0, 255]] {
+                    v.push(TextAndElems { t: t.to_string(), b: b.to_string(), c });
+                }
+            }
+        }
+        v
+    }
+}
+
 #[derive(Serialize, Deserialize, PartialEq, Debug, Clone)]
 pub struct ValueString {
     #[serde(rename = "@k")]
@@ -305,6 +335,37 @@ pub struct OptElems {
 impl Fam for OptElems {
     const NAME: &'static str = "OptElems";
     const ELEMENT_ONLY: bool = true;
+    fn nil_docs(&self) -> Vec<String> {
+        const XSI: &str = "http://www.w3.org/2001/XMLSchema-instance";
+        let esc = |s: &str| quick_xml::escape::escape(s).into_owned();
+        let mut docs = Vec::new();
+        // every non-empty subset of the absent fields is written as a nil element
+        let absent = [self.a.is_none(), self.b.is_none(), self.c.is_none()];
+        for mask in 1u8..8 {
+            if (0..3).any(|k| mask & (1 << k) != 0 && !absent[k]) {
+                continue;
+            }
+            let mut d = format!("<OptElems xmlns:xsi=\"{}\">", XSI);
+            match &self.a {
+                Some(a) => d.push_str(&format!("<a>{}</a>", esc(a))),
+                None if mask & 1 != 0 => d.push_str("<a xsi:nil=\"true\"/>"),
+                None => {}
+            }
+            match &self.b {
+                Some(b) => d.push_str(&format!("<b id=\"{}\"><name>{}</name></b>", b.id, esc(&b.name))),
+                None if mask & 2 != 0 => d.push_str("<b xsi:nil=\"1\"><name>ignored</name></b>"),
+                None => {}
+            }
+            match &self.c {
+                Some(c) => d.push_str(&format!("<c>{}</c>", c)),
+                None if mask & 4 != 0 => d.push_str("<c xsi:nil=\"true\"></c>"),
+                None => {}
+            }
+            d.push_str("</OptElems>");
+            docs.push(d);
+        }
+        docs
+    }
     fn values(level: usize) -> Vec<Self> {
         let mut v = Vec::new();
         for a in opt(&text_strings(level)) {
@@ -764,7 +825,7 @@ impl Fam for Renamed {
 macro_rules! for_each_type {
     ($mac:ident) => {
         $mac!(
-            Attrs, OptAttr, Children, TextDefault, TextPlain, ValueString, OptElems, VecElems, VecStructs, TextList,
+            Attrs, OptAttr, Children, TextDefault, TextPlain, TextAndElems, ValueString, OptElems, VecElems, VecStructs, TextList,
             AttrList, UnitEnums, OneChoice, Mixed, Nested, MapHolder, NewtypeStr, NewtypeHolder, Numbers, TopEnum, Renamed
         );
     };
